@@ -136,7 +136,7 @@ ASSUMPTIONS = [
 
 PROP_ASSUMPTIONS = {
     "C05": ["comparison counts are a generated static derivation over the syntax tree (tools/cost.py), not a Verus proof; the sum of sift heights in heap_build being O(n) (Floyd) is assumed"],
-    "C08": ["Store::retain (one-line FnMut adapter) has an assumed contract; IterMut2 (with the prophecy of the final entries) / retain2-with-recorded-answers stub contracts (audited at run time in the thorough tier)", "Verus models FnMut / FnOnce closures as fixed relations between arguments and result (f.ensures); a closure's own mutable state is not tracked", "R19: Vec::into_iter yields the elements of the vector in order"],
+    "C08": ["R21: the bound FnMut(&I, &P) -> bool of the three retain functions is verified as Fn(&I, &P) -> bool (the adapter closure of Store::retain captures the predicate by shared reference); IterMut2 (with the prophecy of the final entries) / retain2-with-recorded-answers stub contracts (audited at run time in the thorough tier)", "Verus models FnMut / FnOnce closures as fixed relations between arguments and result (f.ensures); a closure's own mutable state is not tracked", "R19: Vec::into_iter yields the elements of the vector in order"],
     "C09": ["the raw-pointer reborrow in IterMut::next (rewrite R6, __launder) is trusted to be the identity on the two references"],
     "C10": ["Verus has no unwinding semantics: 'the tables are consistent whenever user code can panic' => 'safe after a caught panic' is a meta-argument",
             "panics of the user's Hash / Eq inside IndexMap's own lookups and insertions are left to indexmap / hashbrown (they probe before they mutate)",
